@@ -112,9 +112,9 @@ type run struct {
 	out  *simkit.Outcome
 	c22  bool
 	c23  bool
-	refP []primary // refP[k] = primary records of the reference after k entries
-	snap [][]byte  // snap[k] = persisted snapshot of the reference after k entries
-	good []bool    // good[k] = restoring snap[k] reproduced refP[k]
+	refP []primary           // refP[k] = primary records of the reference after k entries
+	snap [][]byte            // snap[k] = persisted snapshot of the reference after k entries
+	good []bool              // good[k] = restoring snap[k] reproduced refP[k]
 	refI []map[string]string // refI[k] = index findings of the reference after k entries
 	stop bool
 }
